@@ -995,7 +995,7 @@ func reducedSel(sel []string) bool {
 
 func hashScenario(r *mc.Run, name string, bounds map[string]interface{}, ws []work, ops []string, sels [][]string, srcs []string) {
 	bounds["ways_of_writing"] = strings.Join(writerVias, ", ") + " (other than write: reduced selections, observation at end/mid)"
-	bounds["ways_of_reading"] = strings.Join(readerVias, ", ") + " (other than read: reduced selections; helpers that choose their own buffer sizes once per stream); source zero-once with reduced selections"
+	bounds["ways_of_reading"] = strings.Join(readerVias, ", ") + " (other than read: reduced selections; helpers that choose their own buffer sizes once per stream); sources other than full with reduced selections"
 	r.Scenario(name, bounds, len(ws), func(i int, st *mc.Stats) bool {
 		w := ws[i]
 		sh := ""
@@ -1024,7 +1024,9 @@ func hashScenario(r *mc.Run, name string, bounds map[string]interface{}, ws []wo
 					}
 					for _, src := range ss {
 						for si, sel := range sels {
-							if (vi != 0 || src == "zero-once") && !reducedSel(sel) {
+							// the full set of 64 selections is used with the plain way and the plain source; the other
+							// ways / source styles concern plumbing that does not depend on the order of many names
+							if (vi != 0 || (src != "" && src != "full")) && !reducedSel(sel) {
 								continue
 							}
 							ats := sumAts(ch)
